@@ -219,6 +219,17 @@ def classify(diags, ug, canary=False):
             for t in f.tags:
                 if t not in tags:
                     tags.append(t)
+        if kind != 'postcondition' and f:
+            # anything that fails inside a body (invariant, assertion, callee precondition, arithmetic) leaves every
+            # postcondition of that function unproved: Verus assumes the failed fact from there on
+            for t in f.tags:
+                if t not in tags:
+                    tags.append(t)
+            for c in f.all_clauses():
+                if c.kind == 'ensures':
+                    for t in c.tags:
+                        if t not in tags:
+                            tags.append(t)
         info['tags'] = tags
         failures.append(info)
     return failures, hard_errors
